@@ -950,6 +950,30 @@ fn gen_c11(rec: &mut Rec, rng: &mut Rng, scale: u64) {
             }
         }
     }
+    // small objects with the empty key (2-byte entries) as the last value of the input: they have a length too
+    for doc in [&[0x81u8, 0xa0, 0x07][..], &[0x83, 0xa0, 0x00, 0xa1, b'a', 0x01, 0xa1, b'b', 0x02], &[0x92, 0x09, 0x82, 0xa0, 0x04, 0xa1, b'k', 0x05],
+                &[0x82, 0xa1, b'a', 0x93, 0x01, 0x02, 0x03, 0xa1, b'z', 0x82, 0xa0, 0x04, 0xa1, b'k', 0x05], &[0x82, 0xa0, 0xa0, 0xa1, b'x', 0xa0], &[0x8f, 0xa0, 0, 0xa0, 0, 0xa0, 0, 0xa0, 0, 0xa0, 0, 0xa0, 0, 0xa0, 0, 0xa0, 0, 0xa0, 0, 0xa0, 0, 0xa0, 0, 0xa0, 0, 0xa0, 0, 0xa0, 0, 0xa0, 0]] {
+        rec.case("c11");
+        rec.bump("c11:empty-key-at-end");
+        rec.op(&format!("init {}", hex0(doc)));
+        let r = rec.op("root");
+        rec.op("len h0");
+        rec.op("a.len h0");
+        rec.op(&format!("prop h0 {}", hex0(b"")));
+        rec.op("key h0 0");
+        for i in 0..3 {
+            let a = rec.op(&format!("idx h0 {}", i));
+            if let Some(h) = a.split_whitespace().nth(1) {
+                if a.starts_with("obj") || a.starts_with("arr") {
+                    rec.op(&format!("len {}", h));
+                    rec.op(&format!("a.len {}", h));
+                    rec.op(&format!("prop {} {}", h, hex0(b"")));
+                    rec.op(&format!("idx {} 1", h));
+                }
+            }
+        }
+        let _ = r;
+    }
     let mut sizes: Vec<usize> = (0..=40).collect();
     sizes.extend_from_slice(&[16381, 16382, 16383, 16384, 16385, 65535, 65536, 70000]);
     let reps = if scale > 1 { 2 } else { 1 };
@@ -1829,6 +1853,11 @@ fn gen_typed(rec: &mut Rec, rng: &mut Rng, cases: u64) {
         &[0xa0], &[0xa1, b'a'], &[0xa2, b'a', b'b'], &[0x90], &[0x91, 0x01], &[0x92, 0x01, 0x02],
         &[0x93, 0x01, 0x02, 0x03], &[0x92, 0x01, 0xa1, b'x'], &[0x80], &[0x81, 0xa1, b'a', 0x01],
         &[0x81, 0xa1, b'a', 0xc0], &[0x82, 0xa1, b'a', 0x01, 0xa1, b'b', 0x91, 0xa1, b'z'],
+        // strings whose text is a number (a string is never an integer, whatever it spells)
+        &[0xa2, b'4', b'2'], &[0xa3, b'+', b'1', b'0'], &[0xa3, b'0', b'0', b'7'], &[0xa1, b'0'], &[0xa2, b'-', b'1'],
+        &[0xab, b'-', b'2', b'1', b'4', b'7', b'4', b'8', b'3', b'6', b'4', b'8'], &[0xa3, b'2', b'5', b'5'], &[0xa3, b'1', b'.', b'0'],
+        &[0x93, 0xa1, b'1', 0xa1, b'2', 0xa1, b'3'], &[0x82, 0xa1, b'a', 0xa3, b'+', b'1', b'0', 0xa1, b'b', 0xc0],
+        &[0x92, 0xa1, b'1', 0x02], &[0xa4, b't', b'r', b'u', b'e'], &[0xa4, b'n', b'u', b'l', b'l'],
         &[0x91, 0xc0], &[0x91, 0x90], &[0x91, 0x80], &[0x93, 0xc3, 0xc0, 0xc0], &[0xcd, 0x01, 0x00],
         &[0xd0, 0x80], &[0xd1, 0x80, 0x00], &[0xce, 0xff, 0xff, 0xff, 0xff], &[0xcf, 0xff, 0xff, 0xff, 0xff, 0xff, 0xff, 0xff, 0xff],
         &[0xd3, 0x80, 0, 0, 0, 0, 0, 0, 0], &[0xca, 0x3f, 0xc0, 0, 0], &[0x92, 0x07, 0xa1, b'q'],
